@@ -272,7 +272,7 @@ func runSync(k *kernel.K) {
 				infos[i], infos[j] = infos[j], infos[i]
 			}
 			k.Event("process", "%d results (queue %d, target %d)", len(results), c.f.VerifQueueLen(), c.f.VerifTarget())
-			_, reps, _, err := c.f.Process(results)
+			reps, err := c.process(results)
 			synctest.Wait()
 			if err != nil {
 				k.Event("process-error", "%v", err)
@@ -317,6 +317,18 @@ func runSync(k *kernel.K) {
 				}
 			}
 			k.Event("server-moves", "srv%d best=#%d fin=%s", sv.id, nb.Number, cu.Short(sv.fin))
+		case a == 8 && k.Bool(1, 2, "client-finalises"): // GRANDPA finalises a block of the syncing node's best chain
+			best, _ := c.bs.BestBlockHeader()
+			fin, _ := c.bs.GetHighestFinalisedHeader()
+			if best.Number > fin.Number {
+				n := fin.Number + 1 + uint(k.Choose(int(best.Number-fin.Number), "client-fin-number"))
+				if h, err := c.bs.GetHashByNumber(n); err == nil {
+					if err := c.bs.SetFinalisedHash(h, uint64(st+1), 0); err == nil {
+						k.Event("client-finalises", "#%d %s", n, cu.Short(h))
+						k.Probe("client-finalised")
+					}
+				}
+			}
 		default: // a (possibly Byzantine) requester asks a server directly: C31 serving oracle
 			s.directRequest()
 		}
@@ -343,6 +355,25 @@ func (s *ssim) isAncestor(a, of common.Hash) bool {
 		}
 		x = b.Parent
 	}
+}
+
+// process calls the real Process. One panic is outside C32's statement and ends the run without a
+// verdict: a block on a fork at or below the finalised height (announced before, completed after
+// the finalisation) reaches the importer, whose runtime lookup panics for parents that left the
+// block tree - gossamer's own issue #3066, quoted in the panic text.
+func (c *client) process(results []*gsync.SyncTaskResult) (reps []gsync.Change, err error) {
+	defer func() {
+		if r := recover(); r != nil {
+			if strings.Contains(fmt.Sprint(r), "issues/3066") {
+				c.k.Probe("importer-panic-gossamer-issue-3066-out-of-scope")
+				c.k.Event("out-of-scope-panic", "%v", r)
+				c.k.Stop()
+			}
+			panic(r)
+		}
+	}()
+	_, reps, _, err = c.f.Process(results)
+	return reps, err
 }
 
 // onHandOver: C32 oracle at the moment the strategy hands a block to the importer.
